@@ -19,6 +19,8 @@ type C07File struct {
 	Path  string `json:"path"` // relative to data/
 	ID    string `json:"id"`   // expected source id
 	Lens  []int  `json:"lens"` // payload length per line
+	// NoFinalNL: the last line of the file is not terminated by a newline
+	NoFinalNL bool `json:"no_final_nl,omitempty"`
 }
 
 type C07Scenario struct {
@@ -30,6 +32,9 @@ type C07Scenario struct {
 	Cfg     ServerCfg           `json:"cfg"`
 	Stalls  []StallSpec         `json:"stalls"`
 	Net     verifsimnet.Profile `json:"net"`
+	// Compress: every file is stored compressed under its name + "." + Compress
+	// (gz | zst | ""), and the glob carries the same suffix
+	Compress string `json:"compress,omitempty"`
 }
 
 func c07Line(file, n, plen int) string {
@@ -46,7 +51,9 @@ func (sc *C07Scenario) content(i int) []byte {
 	var b bytes.Buffer
 	for n, l := range sc.Files[i].Lens {
 		b.WriteString(c07Line(i, n+1, l))
-		b.WriteByte('\n')
+		if n < len(sc.Files[i].Lens)-1 || !sc.Files[i].NoFinalNL {
+			b.WriteByte('\n')
+		}
 	}
 	return b.Bytes()
 }
@@ -93,9 +100,20 @@ func c07Gen(r *Rand, tier string, i int) Scenario {
 				lens = append(lens, r.Intn(80))
 			}
 		}
-		sc.Files = append(sc.Files, C07File{Path: p, ID: id, Lens: lens})
+		sc.Files = append(sc.Files, C07File{Path: p, ID: id, Lens: lens, NoFinalNL: r.Bool(0.25)})
 		if layout == 3 {
 			break
+		}
+	}
+	if r.Bool(0.25) {
+		// compressed sources: several decompressors run at once in one server
+		sc.Compress = PickOf(r, "gz", "gz", "zst")
+		sc.Glob += "." + sc.Compress
+		for f := range sc.Files {
+			sc.Files[f].Path += "." + sc.Compress
+			if layout != 0 {
+				sc.Files[f].ID += "." + sc.Compress
+			}
 		}
 	}
 	sc.Cfg.MaxCats = PickOf(r, 1, 2, 3)
@@ -124,7 +142,7 @@ func c07Run(t *testing.T, s Scenario, src verifsim.DecisionSource, keep bool) *R
 	opts := RunOpts{Src: src, KeepLabels: keep, MaxFake: 10 * time.Minute, Stalls: stallRules(sc.Stalls), Net: &np}
 	res.Outcome = RunSim(t, opts, func(w *World) {
 		for i, f := range sc.Files {
-			w.WriteFile(f.Path, sc.content(i))
+			w.WriteFile(f.Path, compress(sc.Compress, sc.content(i)))
 		}
 		spec := ReadSpec{Kind: sc.Kind, Transport: "ssh", Hosts: sc.Hosts, Plain: false, NoColor: true, Files: []string{sc.Glob}}
 		if sc.Kind == "grep" {
@@ -244,14 +262,20 @@ func c07Shape(s Scenario) string {
 		}
 		sz = append(sz, fmt.Sprintf("%dx%d", len(f.Lens), mx))
 	}
-	return fmt.Sprintf("%s/h%d/%s/%s/cats%d/lat%v/chunk%d", sc.Kind, len(sc.Hosts), sc.Glob, strings.Join(sz, ","), sc.Cfg.MaxCats, sc.Net.ConnLatency, sc.Net.ChunkMax)
+	nonl := 0
+	for _, f := range sc.Files {
+		if f.NoFinalNL {
+			nonl++
+		}
+	}
+	return fmt.Sprintf("%s/h%d/%s/%s/cats%d/lat%v/chunk%d/nonl%d", sc.Kind, len(sc.Hosts), sc.Glob, strings.Join(sz, ","), sc.Cfg.MaxCats, sc.Net.ConnLatency, sc.Net.ChunkMax, nonl)
 }
 
 func c07Sample(s Scenario) any {
 	sc := s.(*C07Scenario)
 	var fs []map[string]any
 	for _, f := range sc.Files {
-		fs = append(fs, map[string]any{"path": f.Path, "id": f.ID, "lines": len(f.Lens)})
+		fs = append(fs, map[string]any{"path": f.Path, "id": f.ID, "lines": len(f.Lens), "no_final_newline": f.NoFinalNL})
 	}
 	return map[string]any{"kind": sc.Kind, "hosts": sc.Hosts, "glob": sc.Glob, "files": fs, "max_cats": sc.Cfg.MaxCats, "net": sc.Net, "stalls": sc.Stalls, "sched": sc.Sched}
 }
@@ -293,6 +317,13 @@ func c07Shrink(s Scenario) []Scenario {
 		n := cl()
 		n.Stalls = nil
 		out = append(out, n)
+	}
+	for i, f := range sc.Files {
+		if f.NoFinalNL {
+			n := cl()
+			n.Files[i].NoFinalNL = false
+			out = append(out, n)
+		}
 	}
 	n := cl()
 	n.Net = verifsimnet.Profile{}
